@@ -211,6 +211,10 @@ class Engine:
             if isinstance(val, (SRef, SOptRef)):
                 return val.t
         if kind.startswith(("ref:", "list:", "dict:", "set:", "iter:")) and isinstance(val, SRef):
+            if kind.startswith("list:") and val.kind.startswith("list:") and getattr(val, "empty_literal", False) and not st.spec \
+                    and elem_heapkey(kind[5:]) != elem_heapkey(val.kind[5:]):
+                # `[]` was typed list:any for want of a hint; an empty list is empty in every element family
+                self.list_set_all(st, SRef(val.t, kind), z3.IntVal(0), z3.K(z3.IntSort(), bm.default_of(FAM_SORT[elem_heapkey(kind[5:])])))
             return val.t
         if kind.startswith(("ref:", "list:", "dict:", "set:")) and isinstance(val, SOptRef):
             if not st.spec:
@@ -802,7 +806,10 @@ class Engine:
         def got(s, vs):
             hint = getattr(e, "_elemkind", None)
             ek = hint if hint is not None else (bm.join_kinds([v.kind for v in vs]) if vs else "any")
-            return k(s, self.new_list(s, ek, vs))
+            lv = self.new_list(s, ek, vs)
+            if not vs and hint is None:
+                lv.empty_literal = True
+            return k(s, lv)
         def fr_hint(node, default):
             return getattr(node, "_elemkind", default)
         return self.ev_list(e.elts, st, fr, got)
